@@ -49,8 +49,8 @@ FUNCTIONS = [
     "autoarray.dataset.imaging.dataset.Imaging.w_tilde",
     "autoarray.dataset.imaging.dataset.Imaging.convolver",
 ]
-EXPLORER_OPTS = {"timeout_ms": 120000, "max_paths": 20000, "max_candidates": 3}   # generous solver timeout: the host is shared and heavily loaded
-BUDGET_S = {"quick": 900, "thorough": 2300}
+EXPLORER_OPTS = {"timeout_ms": 60000, "max_paths": 20000, "max_candidates": 3}   # generous solver timeout: the host is shared and heavily loaded
+BUDGET_S = {"quick": 480, "thorough": 2200}
 
 
 
@@ -947,7 +947,7 @@ def cases(tier):
     out.append((I, {"pattern": "cross5", "ky": 3, "kx": 3, "specs": ["D2"], "mode": "data", "signed": False}))
     for (ky, kx) in nonsq:
         out.append((I, {"pattern": "cross5", "ky": ky, "kx": kx, "specs": ["R33s2d", "F1"], "mode": "data", "signed": False, "solve": True}))
-    out.append((I, {"pattern": "L3", "ky": 3, "kx": 3, "specs": ["R33s1"], "mode": "kernel"}))
+    out.append((I, {"pattern": "L3", "ky": 3, "kx": 3, "specs": ["R33s1"], "mode": "kernel", "ksym": [0, 4, 7] if q else None}))
     out.append((I, {"pattern": "pair", "ky": 3, "kx": 3, "specs": ["F1", "R33s2d"], "mode": "kernel"}))
     out.append((I, {"pattern": "block4", "ky": 3, "kx": 3, "specs": ["R33s1", "F1"], "mode": "kernel", "ksym": [0, 4, 7]}))
     out.append((I, {"pattern": "L3", "ky": 3, "kx": 3, "specs": ["R33s2d", "R33s1n"], "mode": "kernel", "ksym": [1, 3, 8]}))
